@@ -225,12 +225,7 @@ impl FragmentedMuxer {
             return false;
         }
 
-        let first_dts = self.samples[0].dts;
-        let last_dts = self.samples.last().unwrap().dts;
-        let duration_ticks = last_dts.saturating_sub(first_dts);
-        let duration_ms = duration_ticks * 1000 / self.config.timescale as u64;
-
-        duration_ms >= self.config.fragment_duration_ms as u64
+        self.current_fragment_duration_ms() >= self.config.fragment_duration_ms as u64
     }
 
     /// Get current fragment duration in milliseconds.
@@ -241,7 +236,13 @@ impl FragmentedMuxer {
         let first_dts = self.samples[0].dts;
         let last_dts = self.samples.last().unwrap().dts;
         let duration_ticks = last_dts.saturating_sub(first_dts);
-        duration_ticks * 1000 / self.config.timescale as u64
+        // `timescale` is a public field: zero must not divide, and the product must not
+        // overflow for large DTS spans.
+        if self.config.timescale == 0 {
+            return 0;
+        }
+        let ms = u128::from(duration_ticks) * 1000 / u128::from(self.config.timescale);
+        u64::try_from(ms).unwrap_or(u64::MAX)
     }
 }
 
@@ -867,7 +868,7 @@ fn build_trun(samples: &[FragmentSample], data_offset: u32) -> Vec<u8> {
         payload.extend_from_slice(&flags.to_be_bytes());
 
         // Composition time offset (signed, pts - dts)
-        let cts = (sample.pts as i64 - sample.dts as i64) as i32;
+        let cts = (sample.pts as i64).wrapping_sub(sample.dts as i64) as i32;
         payload.extend_from_slice(&cts.to_be_bytes());
     }
 
